@@ -30,4 +30,6 @@ def texts(pc):
 
 
 def feasible(pcs):
-    return [c for c in pcs if not mc._guard_conflict(c["guards"], c["guards"])]
+    """paths whose guard valuation can hold (no contradictory pattern tests; `empty_set(x)`, the base of the tag-set algebra, is
+    never true)"""
+    return [c for c in pcs if not mc._guard_conflict(c["guards"], c["guards"]) and not any(v and g.startswith("empty_set(") for g, v in c["guards"].items())]
